@@ -1017,6 +1017,17 @@ func (c *Conn) closeWithError(err error) error {
 func (c *Conn) closeWithErrorWithoutLock(err error) error {
 	c.closeErr = err
 
+	// An asynchronous dial that is closed before it got connected (refused,
+	// timed out, engine stopped) has failed: report that to its callback.
+	if onConnected := c.onConnected; onConnected != nil {
+		c.onConnected = nil
+		dialErr := err
+		if dialErr == nil {
+			dialErr = net.ErrClosed
+		}
+		onConnected(c, dialErr)
+	}
+
 	if c.writeList != nil {
 		for _, t := range c.writeList {
 			c.releaseToWrite(t)
